@@ -44,7 +44,14 @@ def it_adapt(kind, *fields):
 
 
 def is_iter(v):
-    return isinstance(v, Agg) and isinstance(v.kind, str) and v.kind.startswith("it:")
+    return (isinstance(v, Agg) and isinstance(v.kind, str) and v.kind.startswith("it:")) or type(v).__name__ == "IterV"
+
+
+def _norm_iter(v):
+    """The older list-iterator value of the term domain is the same thing as it:list."""
+    if type(v).__name__ == "IterV":
+        return it_list(v.items, v.pos)
+    return v
 
 
 def is_opt(v):
@@ -102,6 +109,7 @@ def step(it, v, st):
         for item, inner2, st2 in step(it, inner, st):
             outs.append((item, v, it.write_ref(st2, v, inner2)))
         return outs
+    v = _norm_iter(v)
     if not isinstance(v, Agg):
         raise Undecided("next() on %r" % (v,))
     k = v.kind
@@ -422,7 +430,7 @@ def _call(it, name, args, st):
         recv = args[0] if args else None
         # receiver passed by value (adaptors) or by &mut (next / consumers)
         target = recv if isinstance(recv, Ref) else a0
-        tv = a0
+        tv = _norm_iter(a0)
         if isinstance(tv, Agg) and tv.path == "std::ops::Range":
             tv = it_adapt("range", tv.field(0), tv.field(1))
             if isinstance(recv, Ref):
